@@ -297,3 +297,12 @@ func init() {
 		}
 	}
 }
+
+func init() {
+	libHandlers["(time.Time).UnixMilli"] = func(fr *Frame, st *State, c *ast.CallExpr, fn *types.Func) []Val {
+		x := fr.x
+		x.used("time.Time.UnixMilli: nanoseconds div 10^6")
+		t := fr.recvOf(st, c)
+		return []Val{x.bind(Val{T: "(div (time.ns " + t.T + ") 1000000)", S: "Int", Ty: resT(fn, 0)}, "ms")}
+	}
+}
